@@ -12,7 +12,9 @@
 
    kind   octets enumerated
    int bool oid bits   contents: every string over 0..255 of length <= X_FULL and every
-                       string over the boundary alphabet A14 of length <= X_MAX
+                       string over the boundary alphabet A14 of length <= X_MAX;
+                       int / oid also long contents up to INT_LONG / OID_LONG octets
+                       (two A14 octets + filler: width and arc-size boundaries)
    time                GeneralizedTime: field menus (TIMEMENU) + single-octet mutations
    len                 length octets behind each identifier octet of LEN_IDS: all first octets; the
                        following octets full alphabet while the header is at most
@@ -22,7 +24,7 @@
                        continued likewise (TAG_FULL / TAG_MAX)                      *)
 EXTENDS DER
 
-CONSTANTS KINDS, LEN_IDS, INT_FULL, INT_MAX, OID_FULL, OID_MAX, BITS_FULL, BITS_MAX,
+CONSTANTS KINDS, LEN_IDS, INT_FULL, INT_MAX, INT_LONG, OID_FULL, OID_MAX, OID_LONG, BITS_FULL, BITS_MAX,
           BOOL_FULL, BOOL_MAX, LEN_FULL, LEN_MAX, TAG_FULL, TAG_MAX, TIMEMENU
 
 A14  == {0, 1, 39, 40, 79, 80, 127, 128, 129, 191, 192, 254, 255, 31}
@@ -37,6 +39,19 @@ InA14(s) == \A i \in 1..Len(s) : s[i] \in A14
 Octets(s, full, max) ==
   IF Len(s) + 1 <= full THEN Full
   ELSE IF Len(s) + 1 <= max /\ InA14(s) THEN A14 ELSE {}
+
+(* long INTEGER contents (width boundaries of the fixed-width targets): two A14
+   octets followed by filler octets 0x55 up to INT_LONG octets *)
+IntLong(s) ==
+  IF /\ Len(s) >= 2 /\ Len(s) < INT_LONG /\ InA14(SubSeq(s, 1, 2))
+     /\ \A i \in 3..Len(s) : s[i] = 85
+  THEN {85} ELSE {}
+(* long OID sub-identifiers (the 2^28 / 2^31 limits): one A14 octet, an A14
+   continuation octet, filler continuation octets 0xD5, a terminator *)
+OidLong(s) ==
+  IF /\ Len(s) >= 2 /\ Len(s) < OID_LONG /\ InA14(SubSeq(s, 1, 2)) /\ s[2] >= 128
+     /\ \A i \in 3..Len(s) : s[i] = 213
+  THEN {213, 0, 127} ELSE {}
 
 ----------------------------------------------------------------------------
 (* GeneralizedTime menus *)
@@ -99,11 +114,11 @@ TagNext ==
 
 Next ==
   /\ UNCHANGED kind
-  /\ \/ /\ kind = "int"  /\ \E b \in Octets(c, INT_FULL, INT_MAX)   : c' = Append(c, b)
+  /\ \/ /\ kind = "int"  /\ \E b \in Octets(c, INT_FULL, INT_MAX) \cup IntLong(c) : c' = Append(c, b)
         /\ UNCHANGED aux
      \/ /\ kind = "bool" /\ \E b \in Octets(c, BOOL_FULL, BOOL_MAX) : c' = Append(c, b)
         /\ UNCHANGED aux
-     \/ /\ kind = "oid"  /\ \E b \in Octets(c, OID_FULL, OID_MAX)   : c' = Append(c, b)
+     \/ /\ kind = "oid"  /\ \E b \in Octets(c, OID_FULL, OID_MAX) \cup OidLong(c) : c' = Append(c, b)
         /\ UNCHANGED aux
      \/ /\ kind = "bits" /\ \E b \in Octets(c, BITS_FULL, BITS_MAX) : c' = Append(c, b)
         /\ UNCHANGED aux
